@@ -52,6 +52,11 @@ func runC05(rc *RunCtx) {
 	servers := pool[:1+t.Pick(3, 2, 1)]
 	unitPool := []uint8{1, 2, 3, 11, 0, 20, 21, 255, 12, 112}
 	nunits := 1 + t.Pick(3, 2, 1, 1)
+	if rot := t.Pick(2, 1, 1, 1); rot > 0 {
+		// start the pool elsewhere: unit ids 0 (a unit id like any other), 255 and the colliding pairs get their turn
+		k := []int{0, 4, 7, 3}[rot]
+		unitPool = append(append([]uint8(nil), unitPool[k:]...), unitPool[:k]...)
+	}
 	nf := 1 + t.Pick(2, 3, 3, 2)*4 + t.Choose(4)
 	if nf > 40 {
 		nf = 40
